@@ -56,6 +56,13 @@ var trTargets = []trTarget{
 	{Pkg: evm + "x/evm/keeper", Recv: "StateTransition", Name: "preCheck"},
 	{Pkg: evm + "x/evm/keeper", Recv: "StateTransition", Name: "refundGas"},
 	{Pkg: evm + "x/evm/types", Name: "BinSearch", Fuel: "hi + 1"},
+	{Pkg: evm + "x/evm/keeper", Recv: "Keeper", Name: "GetRawTxCountTransient"},
+	{Pkg: evm + "x/evm/keeper", Recv: "Keeper", Name: "GetTxCountTransient"},
+	{Pkg: evm + "x/evm/keeper", Recv: "Keeper", Name: "IncreaseTxCountTransient"},
+	{Pkg: evm + "x/evm/keeper", Recv: "Keeper", Name: "SetGasUsedForCurrentTxTransient"},
+	{Pkg: evm + "x/evm/keeper", Recv: "Keeper", Name: "GetGasUsedForTdxIndexTransient"},
+	{Pkg: evm + "x/evm/keeper", Recv: "Keeper", Name: "SetLogCountForCurrentTxTransient"},
+	{Pkg: evm + "x/evm/keeper", Recv: "Keeper", Name: "GetCumulativeLogCountTransient", Fuel: "txCount + 1"},
 	{Pkg: evm + "x/cpc/keeper", Recv: "erc20CustomPrecompiledContractRwTransferFrom", Name: "spendAllowance"},
 	{Pkg: evm + "types", Name: "BlockGasLimit"},
 	{Pkg: geth + "consensus/misc", Name: "CalcBaseFee"},
@@ -124,6 +131,8 @@ type gen struct {
 	errors  map[string]string
 	active  map[string]bool
 	opaqueC []string // opaque conditions, for the record
+	typeNames map[string]string // Go type (full path) -> structure name
+	nameOwner map[string]string
 }
 
 func (g *gen) structOf(name string) *structDef {
@@ -287,8 +296,26 @@ func (g *gen) classify(t types.Type) lty {
 	}
 	if n, ok := tt.(*types.Named); ok {
 		name := n.Obj().Name()
+		full := name
 		if n.Obj().Pkg() != nil {
 			name = n.Obj().Pkg().Name() + "_" + name
+			full = n.Obj().Pkg().Path() + "." + n.Obj().Name()
+		}
+		// two Go types with the same short name (x/evm/keeper.Keeper, x/feemarket/keeper.Keeper) get distinct structures
+		if g.typeNames == nil {
+			g.typeNames, g.nameOwner = map[string]string{}, map[string]string{}
+		}
+		if nm, ok := g.typeNames[full]; ok {
+			name = nm
+		} else {
+			if owner, taken := g.nameOwner[name]; taken && owner != full {
+				parts := strings.Split(n.Obj().Pkg().Path(), "/")
+				if len(parts) >= 2 {
+					name = sanitize(parts[len(parts)-2]) + "_" + name
+				}
+			}
+			g.typeNames[full] = name
+			g.nameOwner[name] = full
 		}
 		return lty{k: kOpaque, lean: name, opaque: name}
 	}
@@ -463,6 +490,29 @@ func (f *fnCtx) pathOf(e ast.Expr) (pathVal, []ast.Expr, bool) {
 						p.segs[len(p.segs)-1] += "_" + strings.Join(append([]string{ap.root.Name()}, ap.segs...), "_")
 						continue
 					}
+					// a package-level variable as argument (a fixed store key) names the accessor
+					if pv := pkgLevelVar(f.info, a); pv != "" {
+						p.segs[len(p.segs)-1] += "_" + pv
+						continue
+					}
+					// a key built from values by a package function (evmtypes.TxGasTransientKey(i)): the constructor names
+					// the accessor, its arguments are the accessor's arguments
+					if kc, ok := a.(*ast.CallExpr); ok {
+						if kfn := f.calleeFunc(kc); kfn != nil && kfn.Type().(*types.Signature).Recv() == nil && f.g.sigForNoTranslate(kfn) == nil && !knownPkgFunc(kfn) {
+							allVals := len(kc.Args) > 0
+							for _, ka := range kc.Args {
+								kk := f.g.classifySafe(f.typeOf(ka))
+								if kk.k == kOpaque || kk.k == kUnit || kk.k == kFunc || kk.k == kOList {
+									allVals = false
+								}
+							}
+							if allVals {
+								p.segs[len(p.segs)-1] += "_" + kfn.Name()
+								vals = append(vals, kc.Args...)
+								continue
+							}
+						}
+					}
 					vals = append(vals, a)
 				}
 				if vals == nil {
@@ -477,6 +527,50 @@ func (f *fnCtx) pathOf(e ast.Expr) (pathVal, []ast.Expr, bool) {
 		}
 	}
 	return pathVal{}, nil, false
+}
+
+// sigForNoTranslate: is the function one of the targets (without translating it now)
+func (g *gen) sigForNoTranslate(fn *types.Func) *trTarget {
+	if fn.Pkg() == nil {
+		return nil
+	}
+	for i, t := range trTargets {
+		if t.Recv == "" && t.Pkg == fn.Pkg().Path() && t.Name == fn.Name() {
+			return &trTargets[i]
+		}
+	}
+	return nil
+}
+
+func pkgLevelVar(info *types.Info, e ast.Expr) string {
+	var id *ast.Ident
+	switch x := e.(type) {
+	case *ast.Ident:
+		id = x
+	case *ast.SelectorExpr:
+		if _, isPkg := info.ObjectOf(identOf(x.X)).(*types.PkgName); isPkg {
+			id = x.Sel
+		}
+	}
+	if id == nil {
+		return ""
+	}
+	if v, ok := info.ObjectOf(id).(*types.Var); ok && !v.IsField() && v.Pkg() != nil && v.Parent() == v.Pkg().Scope() {
+		return v.Name()
+	}
+	return ""
+}
+
+func knownPkgFunc(fn *types.Func) bool {
+	if fn.Pkg() == nil {
+		return false
+	}
+	switch fn.Pkg().Path() + "." + fn.Name() {
+	case "github.com/cosmos/cosmos-sdk/types.BigEndianToUint64", "github.com/cosmos/cosmos-sdk/types.Uint64ToBigEndian",
+		"math/big.NewInt", "cosmossdk.io/math.NewInt", "cosmossdk.io/math.NewIntFromUint64", "cosmossdk.io/math.NewIntFromBigInt":
+		return true
+	}
+	return false
 }
 
 func identOf(e ast.Expr) *ast.Ident {
